@@ -196,7 +196,10 @@ type scenario struct {
 	pro    []op // prologue: applied to every fresh instance (a non-initial start state)
 }
 
-func init() { styles = append(styles, styleULViaAttr) }
+// a hyperlink whose text tries to end the OSC 8 string and go on with commands (C09 only)
+var styleHostileURL = shadow.StyleD{Fg: tcell.ColorRed, URL: "http://h/\x1b\\\x1b[?5h\a", URLI: "i\x07d"}
+
+func init() { styles = append(styles, styleULViaAttr, styleHostileURL) }
 
 func scenarios() []scenario {
 	var out []scenario
@@ -806,6 +809,7 @@ func c09Scenarios() []scenario {
 		// never addressed ("no ... negative numbers")
 		// control characters in a combining list (the demos' puts() pattern puts every rune of
 		// width 0 there, and the width table says 0 for controls): never written to the terminal
+		{kind: "set", x: 3, r: 'u', st: len(styles) - 1},
 		{kind: "set", x: 0, r: 'q', comb: []rune{0x07}}, {kind: "set", x: 1, r: 'q', comb: []rune{0x9b, 0x1b}}, {kind: "set", x: 2, r: 'q', comb: []rune{0x0301, 0x0e, 0x7f}},
 		{kind: "cursor", x: -3, y: 0}, {kind: "cursor", x: 1, y: -2}, {kind: "cursor", x: -1, y: -1}, {kind: "cursor", x: 4, y: 0}, {kind: "cursor", x: -1000, y: 1000},
 	}
